@@ -38,6 +38,8 @@ def plan(tier, seed):
         cfgs.append(dict(driver="B", kind=kind, cap=1, depth=d - 2, second=1))
     # four customers over three priority levels (a newcomer that outranks two waiting requests)
     cfgs.append(dict(driver="A", kind="prio", cap=1, n=4, rich=0, prios3=1))
+    # capacity 2, four customers, three levels, mixed preempt flags (a preempting request queued behind a better-ranked one that does not preempt)
+    cfgs.append(dict(driver="A", kind="preemptive", cap=2, n=4, rich=0, prios3=1, slim=1))
     for kind in ("plain", "prio", "preemptive"):
         for cap in (1, 2):
             cfgs.append(dict(driver="A", kind=kind, cap=cap, n=3 if quick else (4 if kind == "plain" else 3), rich=0 if quick else 1,
@@ -309,8 +311,11 @@ def exec_scripts(ch, cfg):
             prio = ch.choose(2, lambda c, i=i: "customer %d priority %d" % (i, c), free=True) if kind != "plain" else 0
         pre = bool(ch.choose(2, lambda c, i=i: "customer %d preempt=%s" % (i, bool(c)), free=True)) if kind == "preemptive" else False
         pat = patiences[ch.choose(len(patiences), lambda c, i=i: "customer %d patience %s" % (i, patiences[c]), free=True)]
-        hold = 1 + ch.choose(2, lambda c, i=i: "customer %d holds for %d" % (i, c + 1), free=True)
-        again = bool(ch.choose(2, lambda c, i=i: "customer %d after preemption: %s" % (i, "requests again" if c else "leaves"), free=True)) if kind == "preemptive" else False
+        if cfg.get("slim"):
+            hold, again = 2, False
+        else:
+            hold = 1 + ch.choose(2, lambda c, i=i: "customer %d holds for %d" % (i, c + 1), free=True)
+            again = bool(ch.choose(2, lambda c, i=i: "customer %d after preemption: %s" % (i, "requests again" if c else "leaves"), free=True)) if kind == "preemptive" else False
         specs.append((a, prio, pre, pat, hold, again))
     grants, preempts, causes, procs, done = [], [], [], [], []
 
